@@ -76,19 +76,29 @@ func (e *Env) Crash() {
 
 // Inst is a live FSM instance.
 type Inst struct {
-	F      *fsm.FSM
-	Env    *Env
-	Notifs []uint64 // values passed to the applied-index callback
-	mu     sync.Mutex
+	F         *fsm.FSM
+	Env       *Env
+	Notifs    []uint64     // values passed to the applied-index callback
+	OnApplied func(uint64) // optional forward of the applied-index callback
+	mu        sync.Mutex
 }
 
 // Open constructs and opens an FSM for (table, shard) on this disk.
 func (e *Env) Open(table string, shard uint64, srt fsm.SnapshotRecoveryType) (inst *Inst, idx uint64, err error) {
-	inst = &Inst{Env: e}
+	return e.OpenWith(table, shard, srt, nil)
+}
+
+// OpenWith is Open with a forward of the applied-index callback installed before the FSM is opened.
+func (e *Env) OpenWith(table string, shard uint64, srt fsm.SnapshotRecoveryType, onApplied func(uint64)) (inst *Inst, idx uint64, err error) {
+	inst = &Inst{Env: e, OnApplied: onApplied}
 	f := fsm.New(table, BaseDir, e.FS, nil, nil, srt, func(a uint64) {
 		inst.mu.Lock()
 		inst.Notifs = append(inst.Notifs, a)
+		cb := inst.OnApplied
 		inst.mu.Unlock()
+		if cb != nil {
+			cb(a)
+		}
 	})(shard, 1).(*fsm.FSM)
 	inst.F = f
 	defer func() {
